@@ -77,6 +77,13 @@ def inRange (i : Int) (n : Nat) : Bool := 0 ≤ i && i < n
 def add (src : List α) (e : α) (i : Int) : Outcome (List α) :=
   if 0 ≤ i && i ≤ src.length then .ok (src.insertIdx i.toNat e) else .err (.idx src.length i)
 
+/-- "only the documented in-place functions modify their argument", for `Add` (which is not one of them): what is
+    visible through the argument after a successful call is the argument as it was — unless the result lives in the
+    argument's own backing array (`shares`; Go's `append` with spare capacity, the only case in which the result can
+    be handed out without a copy), where it necessarily is the first `len(src)` elements of the result. -/
+def addArgOk [BEq α] (src argAfter res : List α) (shares : Bool) : Bool :=
+  if shares then argAfter == res.take src.length else argAfter == src
+
 def delete (src : List α) (i : Int) : Outcome (List α) :=
   if inRange i src.length then .ok (src.eraseIdx i.toNat) else .err (.idx src.length i)
 
